@@ -181,7 +181,7 @@ def build_harness(prop, flavour, srcs, extra=()):
             raise BuildError("harness link failed:\n" + out[-3000:])
         shutil.rmtree(d, ignore_errors=True)
         os.rename(tmp, d)
-        _prune(hroot, "%s-%s" % (prop, flavour), 2)
+        _prune(hroot, "%s-%s" % (prop, flavour), 6)
     return exe
 
 
@@ -334,7 +334,7 @@ def build_model_driver(prop):
             raise BuildError("model driver does not compile:\n" + out[-3000:])
         shutil.rmtree(d, ignore_errors=True)
         os.rename(tmp, d)
-        _prune(os.path.join(BUILD, "ocaml"), low, 2)
+        _prune(os.path.join(BUILD, "ocaml"), low, 4)
     return exe
 
 
